@@ -110,10 +110,12 @@ func fakeCerts(s Sx) []*x509.Certificate {
 	return out
 }
 
+// mustURL parses s; a string url.Parse refuses becomes an opaque URL whose String() is s again
+// (the only way a library user can hold such a URL: a hand-built url.URL)
 func mustURL(s string) *url.URL {
 	u, err := url.Parse(s)
 	if err != nil {
-		panic(fmt.Sprintf("harness: bad url %q", s))
+		return &url.URL{Opaque: s}
 	}
 	return u
 }
